@@ -281,6 +281,10 @@ function step(l) {
         });
       });
       res = __brGraph(nodes[0]); break;
+    case "graphTo":
+      var tn = l.g.map(function() { return {}; });
+      l.g.forEach(function(n, i) { n.ch.forEach(function(c) { tn[i][c.key] = c.to === 0 ? c.val : tn[c.to - 1]; }); });
+      res = __brGraphTo(tn[0]); break;
     default: throw new Error("unknown op " + l.op);
     }
   } catch (e) {
